@@ -90,7 +90,7 @@ def run_tlc(module, cfg, cwd, workers=None, timeout=1800, simulate=None, depth=N
             heap="4g"):
     """Run TLC on cwd/module.tla with cwd/cfg. The spec directory is on the library path."""
     meta = mkwork("hv_meta_")
-    cmd = ["java", "-XX:+UseParallelGC", "-Xmx" + heap, "-Xss16m",
+    cmd = ["java", "-XX:+UseParallelGC", "-Xmx" + heap, "-Xss16m", "-Djava.io.tmpdir=" + meta,      # TLC leaves an empty tlc-* directory per run there
            "-DTLA-Library=" + SPEC + os.pathsep + os.path.join(SPEC, "gen")]
     if dfs_queue:
         cmd.append("-Dtlc2.tool.queue.IStateQueue=StateDeque")
